@@ -116,7 +116,7 @@ PROPS = {
     ),
     "C01": dict(
         level="exploration",
-        specs=["specs.c03_route", "specs.c04_minimise", "specs.c10_tables"],       # premises: the router's steps, every contract of the minimisers, tree -> table steps
+        specs=["specs.c03_route", "specs.c04_minimise", "specs.c10_tables", "specs.c01_pipeline"],       # premises: the router's steps, every contract of the minimisers, tree -> table steps
         bounded=["bounded.c01_delivery", "bounded.c04_tables"],      # (c04_tables: the bounded layer of a premise, the minimisers)
     ),
     "C17": dict(
